@@ -382,9 +382,8 @@ def setcoll(run, drv):
 # ----------------------------------------------------------------------------- numpy index arrays
 def extended(run, drv):
     """numpy index arrays (integer arrays of rank 0..2, boolean masks) in place of tensors: the model treats them as the
-    tensors they stand for, so the same model answer must come out (correspondence `getitem_numpy`, unnamed tensordicts:
-    `_get_names_idx.is_boolean` does not recognise numpy masks, a names-only difference outside the C03 text), plus the
-    property oracle."""
+    tensors they stand for, so the same model answer must come out, names included (correspondence `getitem_numpy`; before
+    fix: b043c05 `_get_names_idx.is_boolean` did not recognise numpy masks), plus the property oracle."""
     rng = run.rng
     n = 1500 if run.tier == "quick" else 10000
     cases = []
@@ -396,7 +395,6 @@ def extended(run, drv):
         if not any(it[0] in ("tensor", "mask") for it in G.items_of(idx)):
             continue
         spec = S.gen_td_spec(rng, bs)
-        spec["names"] = None
         cases.append((spec, idx))
     answers = S.ask_chunked(drv, [f"(c03.get {S.td_sx(spec)} {G.index_sx(idx)})" for spec, idx in cases])
     for (spec, idx), a in zip(cases, answers):
@@ -459,16 +457,16 @@ def witnesses(run, drv):
                     raise
                 except Exception as e:
                     run.oracle_fail("witness-nontensor", case, f"torch accepts a[idx] = value['a']; the tensordict raised {type(e).__name__}: {str(e)[:120]}", "nontensor-whole-entry-write:raises")
-    # replay of the Lean counter-witness `names_follow_index_counterexample` on the implementation (observation: names are
-    # outside the C03 property text; the number of names differing from the number of batch dims is C01 territory)
+    # the former names counter-witness (repaired by the fix: "one name per dim of an advanced-indexed result"; Lean: the
+    # `example` after `names_one_per_dim`): three names for the three batch dims, the broadcast dim in front and unnamed
     spec = {"bs": [3, 2, 4], "names": ["a", "b", "c"], "feats": [[]], "nested": []}
     r = S.build_td(spec)[:, [0, 1], None, [0, 1]]
-    run.notes.append(f"names counter-witness td[:, [0,1], None, [0,1]] (names a,b,c): batch_size {list(r.batch_size)} names {r.names} "
-                     f"(Lean model: batch [2,3,1], names [a,b,None,c])")
-    if list(r.batch_size) != [2, 3, 1] or r.names != ["a", "b", None, "c"]:
-        run.corr("names_counterwitness", "td[:, [0,1], None, [0,1]]", [list(r.batch_size), r.names], [[2, 3, 1], ["a", "b", None, "c"]])
+    run.notes.append(f"names witness td[:, [0,1], None, [0,1]] (names a,b,c): batch_size {list(r.batch_size)} names {r.names} "
+                     f"(Lean model: batch [2,3,1], names [None,a,None])")
+    if list(r.batch_size) != [2, 3, 1] or r.names != [None, "a", None]:
+        run.corr("names_witness", "td[:, [0,1], None, [0,1]]", [list(r.batch_size), r.names], [[2, 3, 1], [None, "a", None]])
     else:
-        run.corr("names_counterwitness", None, "same", "same")
+        run.corr("names_witness", None, "same", "same")
     # the excluded point of the grammar: several Ellipses (torch 2.14 accepts, tensordict raises) — recorded, not judged
     try:
         S.build_td({"bs": [2, 3], "names": None, "feats": [[]], "nested": []})[..., ...]
